@@ -6,6 +6,7 @@ From GV Require Import Base.AnalysesProofs C02.LoopModel C02.LoopSpec C02.LoopPr
 From GV Require Import C02.InducedModel C02.InducedSpec C02.LoopFactsProofs C02.InducedSProofs C02.InducedCProofs C02.InducedEProofs C02.InducedMainProofs.
 From GV Require Import C02.LoopGcProofs C02.LoopTermProofs C02.LoopTotalProofs C02.HeadlineProofs.
 From GV Require C02.Examples.
+From GV Require Import C02.TextbookModel C02.TextbookSpec C02.TextbookProofs C02.PhantomSpec C02.PhantomProofs.
 
 Theorem C02_validated_automata_agree : validated_automata_agree_stmt.
 Proof. exact validated_automata_agree. Qed.
@@ -214,3 +215,46 @@ Print Assumptions C02_pager_mirror_total.
 Theorem C02_pager_construction_correct : pager_construction_correct_stmt.
 Proof. exact pager_construction_correct. Qed.
 Print Assumptions C02_pager_construction_correct.
+
+(* ---- textbook LR(1) ------------------------------------------------------------------------------------
+
+   [lr1_grammar] above is stated over the closure that FOLLOWS THE CODE (LR/CloseSpec.v lr1_closure_rel: an
+   item is present below its parent even with an EMPTY lookahead set).  The property says "LR(1)": the
+   textbook canonical collection over single-lookahead items, [lr1_textbook_grammar].  The two notions
+   coincide on productive grammars — every theorem above that assumes [lr1_grammar g] is a theorem about
+   textbook-LR(1) grammars g as long as every rule of g derives a token string — and differ otherwise:
+   KNOWN FINDING, an item without lookahead costs a textbook-LR(1) grammar with an unproductive rule its
+   determinism (spurious shift/reduce conflict, more states than the canonical collection, a sentence
+   rejected). *)
+
+Theorem C02_lr1_textbook_check_sound : lr1_textbook_check_sound_stmt.
+Proof. exact lr1_textbook_check_sound. Qed.
+Print Assumptions C02_lr1_textbook_check_sound.
+
+Theorem C02_tb_after_characterisation : tb_after_characterisation_stmt.
+Proof. exact tb_after_characterisation. Qed.
+Print Assumptions C02_tb_after_characterisation.
+
+Theorem C02_lr1_textbook_states : lr1_textbook_states_stmt.
+Proof. exact lr1_textbook_states. Qed.
+Print Assumptions C02_lr1_textbook_states.
+
+Theorem C02_lr1_grammar_textbook : lr1_grammar_textbook_stmt.
+Proof. exact lr1_grammar_textbook. Qed.
+Print Assumptions C02_lr1_grammar_textbook.
+
+Theorem C02_lr1_notions_agree_productive : lr1_notions_agree_productive_stmt.
+Proof. exact lr1_notions_agree_productive. Qed.
+Print Assumptions C02_lr1_notions_agree_productive.
+
+Theorem C02_lr1_notions_differ_refuted : lr1_notions_differ_refuted_stmt.
+Proof. exact lr1_notions_differ_refuted. Qed.
+Print Assumptions C02_lr1_notions_differ_refuted.
+
+Theorem C02_phantom_needs_unproductive : phantom_needs_unproductive_stmt.
+Proof. exact phantom_needs_unproductive. Qed.
+Print Assumptions C02_phantom_needs_unproductive.
+
+Theorem C02_phantom_item_costs_determinism_refuted : phantom_item_costs_determinism_refuted_stmt.
+Proof. exact phantom_item_costs_determinism_refuted. Qed.
+Print Assumptions C02_phantom_item_costs_determinism_refuted.
